@@ -45,7 +45,22 @@ def run(rep):
     opts = {"prefix_ops": 120, "rounds": 10 if tier == "quick" else 30, "shard": 2 if tier == "quick" else 4}
     n = 25 if tier == "quick" else 600
     R = SG.run_sim_cases(rep, "C06", opts, n, rng, broken)
+    # live runs of the real component (run loop with its timer, proposer loop, inbound queue)
+    L = SG.run_live_cases(opts, 6 if tier == "quick" else 80, rng)
+    R["mon_fail"] += L["fails"]
+    for k, v in L["kinds"].items():
+        R["kinds"][k] = R["kinds"].get(k, 0) + v
     report(rep, "C06", po, R, broken)
+    ls = [s for s in L["stats"] if s]
+    rep.cov["live_runs"] = {
+        "what": "Config::run of every node (StateMachine::run with the real view timer on a manual clock, run_proposer, the "
+                "prunable inbound queue) with the harness as network: partitions, isolation, 20-90% drops, stops/restarts, then a "
+                "healed period of R(k)+2 view timeouts with block sync; monitors only (no model): commit within R(k) view timeouts "
+                "from every tick of the good period, agreement, consecutive stores",
+        "runs": len(L["cases"]), "view_timeouts_needed_max": max([s["ticks_needed"] for s in ls] or [0]),
+        "blocks_committed": sum(len(o.get("blocks", [[]])[0]) for o in L["outs"] if o.get("blocks")),
+        "messages_forwarded": sum(o.get("forwarded", 0) for o in L["outs"]), "messages_dropped": sum(o.get("dropped", 0) for o in L["outs"]),
+    }
 
 
 def report(rep, prop, po, R, broken, only=None):
@@ -108,6 +123,8 @@ def replay(path):
         print("no concrete input:", d.get("broken"))
         return 1
     case = fi["case"]
+    if "script" in case:
+        return replay_live(fi)
     case["_c"] = [(int(k), int(w)) for k, w in case["committee"]]
     case["_meta"] = fi.get("meta") or {"byz": None, "f": 0, "suffix_start": len(case["ops"]), "down": [], "noisy_suffix": False}
     common.cargo_build(["sim"], "dev")
@@ -122,6 +139,25 @@ def replay(path):
               "| sent", [(s[0], s[1][0]) for s in ob[2]])
     print("blocks", o["blocks"])
     bad, st = SG.monitors(case, o)
+    print("monitors:", st)
+    for b in bad:
+        print("  FAILED", b["monitor"], b["failed"])
+    return 0
+
+
+def replay_live(fi):
+    case = fi["case"]
+    case["_c"] = [(int(k), int(w)) for k, w in case["committee"]]
+    case["_meta"] = fi["meta"]
+    common.cargo_build(["sim"], "dev")
+    o = common.run_impl("sim", [SG.strip(case)], "dev")[0]
+    if "live" not in o:
+        print("HANG / crash:", json.dumps(o)[:300])
+        return 0
+    print("start", "| (running, blocks, persisted view, phase) per node", o["live"][0])
+    for i, st in enumerate(o["live"][1:]):
+        print(i, json.dumps(case["script"][i]), "|", st)
+    bad, st = SG.live_monitors(case, o)
     print("monitors:", st)
     for b in bad:
         print("  FAILED", b["monitor"], b["failed"])
